@@ -20,7 +20,7 @@ ASBUILT["C02"] = """**As built (C02 and C03 share `vlib/c02.py`).** `spec/PathMa
 `RestDroppable`), `PathMatch_Gen.tla` (+ pools small/mid/full, `ExtraPats`, the C03 lemma as an invariant), `harness/c02_test.go`. Quick: 467 k
 (pattern, path, config) cases, 35 s; thorough ~5 min. Both statements are decided from one replay; the verdict is split by the kind of
 disagreement. Values include a non-ASCII letter in both spellings (three bytes `B+E2 B+84 B+AA`, and `%E2%84%AA` decoded under `UnescapePath`), and a
-two-byte delimiting literal whose first byte also occurs in values. Fixed on the way: `ec56936`, `e188dc8` (C02), `11a0cd5`, `6150301`, `d91bf3b` (C03). After the fifth batch of seeded changes: every endpoint route is followed by its *escape twin* (the pattern with its first parameter marker escaped, `/items/\\:id`), a route of its own that handles exactly the paths `RoutePatternMatch` says its text matches -- which at once found `STARFIX` (a route registered as `/\\*` handled every path) -- and a constraint of the application's own registered under the name of a built-in one (`:u<float>`, odd length: the registered constraint is the declared one)."""
+two-byte delimiting literal whose first byte also occurs in values. Fixed on the way: `ec56936`, `e188dc8` (C02), `11a0cd5`, `6150301`, `d91bf3b` (C03). After the fifth batch of seeded changes: every endpoint route is followed by its *escape twin* (the pattern with its first parameter marker escaped, `/items/\\:id`), a route of its own that handles exactly the paths `RoutePatternMatch` says its text matches -- which at once found `b7b6f7a` (a route registered as `/\\*` handled every path) -- and a constraint of the application's own registered under the name of a built-in one (`:u<float>`, odd length: the registered constraint is the declared one)."""
 ASBUILT["C04"] = """**As built.** `spec/Mount.tla` (+ `MC_Mount*.cfg`; actions `AddRoute`, `Open(group|mount)`, `Close`, `Rebuild` -- a request served between two
 registrations, which forces the route tree to be rebuilt while mounts are pending), `harness/c04_test.go` building every program three ways
 (mounts before / after population -- the former with the prefix in its list form `Use([]string{p}, sub)` --, groups, flat). Quick 165 k
@@ -106,7 +106,7 @@ ASBUILT["C15"] = """**As built.** `spec/Session.tla` (mode `middleware` / `store
 header / query sources on memory and external storage with a counting `KeyGenerator`. Writes after `Destroy` in the same request (nothing of
 them is kept), a second `store.Get` for a loaded session (`ReGet`: same id, stored data, absolute deadline unchanged) and a focused
 configuration (`Session_Hist_life.cfg`: one client, single ticks of 2 between requests, so that a session in use meets its absolute deadline)
-were added after the second round of seeded changes. Sequential only: the concurrent same-id exploration was not built. `ByIDSave(i, k, v)` (store API task: `GetByID`, `Set`, `Save`, `Release`; saving is a use -- the idle timeout runs from then, the absolute deadline stays) was added after the fourth batch of seeded changes. The thorough tier with `ByIDSave` found `RESETFIX`: `Reset()` cleared the session's data including its absolute deadline and set none for the new session, so a session reset by a handler never expired absolutely."""
+were added after the second round of seeded changes. Sequential only: the concurrent same-id exploration was not built. `ByIDSave(i, k, v)` (store API task: `GetByID`, `Set`, `Save`, `Release`; saving is a use -- the idle timeout runs from then, the absolute deadline stays) was added after the fourth batch of seeded changes. The thorough tier with `ByIDSave` found `fb5d6ec`: `Reset()` cleared the session's data including its absolute deadline and set none for the new session, so a session reset by a handler never expired absolutely."""
 ASBUILT["C16"] = """**As built.** `spec/Csrf.tla` (+ `Csrf_Hist.cfg.tmpl`; `SessionBackend`, `Put/Drop` token semantics of the session back end), `harness/c16_test.go`.
 Fixed: `7171d2e` (Referer compared as an origin). False alarm corrected: a DELETE route that sits behind the middleware is an unsafe request
 like any other; the first model treated the harness's own "delete token" route as safe. The restriction that a `Referer` is only generated next to an absent / `null` Origin on https was dropped: every Origin class meets every Referer class on both schemes."""
